@@ -29,19 +29,19 @@ from harness.common.shrink import ddmin
 from harness.props import c04_fullproc
 
 PROP = "C04"
-DRIVER_MODULES = ["PsutilModel.Model.C04Gen", "PsutilModel.Spec.C04"]
+DRIVER_MODULES = ["PsutilModel.Model.C04Gen", "PsutilModel.Model.C04Fine", "PsutilModel.Spec.C04"]
 NEEDS_EXT = True
 TRUSTED = [
     "C04 world: the kernel is a process table seen through listdir(/proc), kill(pid,0), the Tgid line of /proc/<pid>/status and the start time in /proc/<pid>/stat; table changes happen between psutil's calls and (for process_iter) right after the listing — not inside a single file read",
-    "C04 model: Process objects are numbered references (pid, start time seen by _init, _gone, _pid_reused); as_dict() is modelled by the kind of each requested name (no access / reads /proc/<pid>/… / starts with _raise_if_pid_reused) in the iteration order of set(attrs), which the harness reads off CPython; attrs=[] (all names) is modelled but not exercised on the fake procfs",
+    "C04 model: Process objects are numbered references (pid, start time seen by _init, _gone, _pid_reused); as_dict() is modelled by the kind of each requested name (no access / reads /proc/<pid>/… / starts with _raise_if_pid_reused) in the iteration order of set(attrs), which the harness reads off CPython; attrs=[] (all names) is modelled and exercised on the complete fake /proc/<pid> of harness/props/c04_fullproc.py (families attrs_all and attrs_all_ad_value); process_iter is called in every form of its signature (no argument, attrs / ad_value positional and by keyword)",
     "C04 harness: thread ids are emulated as directories of the fake root that the wrapped os.listdir hides; the wrapped os.kill converts its argument with the real pid_t converter (os.getsid) before consulting the simulated table (and lets table changes happen right after the probe for _pslinux.pid_exists called on its own)",
     "C04 attrs=[]: the complete fake /proc/<pid> (harness/props/c04_fullproc.py: stat, status, statm, cmdline, environ, io, smaps, smaps_rollup, fd/, fdinfo/, task/, cwd, exe + /proc/meminfo, /proc/net/*) is rendered from proc(5); nice / ionice / cpu_affinity (system calls on the PID) are answered from the simulated table; EACCES is injected at _pslinux.open_binary/open_text, os.readlink, os.listdir (the harness runs as root); only processes that have a status file are used there",
-    "C04 two threads (harness/props/c04_preempt.py): sys.settrace baton scheduler; scheduling points = every line of process_iter (+ inner add/remove), of the cache_clear lambda and of Process.is_running, every bytecode of those that loads/stores _pmap or _pids_reused and the bytecode after it, entry and _get_ident line of Process._init, item boundaries of the consumer loop; all schedules with <= 2 pre-emptions (thorough; with kernel events on a 1/6 sub-lattice) and item-boundary schedules with 3 pre-emptions; every-bytecode granularity is sampled only; more than two pre-emptions / more than two threads are not explored",
+    "C04 two threads (harness/props/c04_preempt.py): sys.settrace baton scheduler; scheduling points = every line of process_iter (+ inner add/remove), of the cache_clear lambda and of Process.is_running, every bytecode of those that loads/stores _pmap or _pids_reused and the bytecode after it, entry and _get_ident line of Process._init, item boundaries of the consumer loop; all schedules with <= 2 pre-emptions (thorough; with kernel events on a 1/6 sub-lattice) and item-boundary schedules with 3 pre-emptions; every-bytecode granularity is sampled only; more than two pre-emptions / more than two threads are not explored (the statement-granularity theorems C04_fine_* cover them thread-locally); the values a real generator frame reads (its locals pmap / a / pid / ls at line events, NoSuchProcess exception events, yields at return events, pmap at the `_pmap = pmap` line) are read off the frame by the tracer and fed to the Lean thread model",
 ]
 MANIFEST = {
-    "level_text": "Machine-checked Lean 4 proofs over a model of pids()/pid_exists()/process_iter()/cache_clear()/is_running()'s cache side effect. For every table: pids() is the strictly ascending list of exactly the listed PIDs (C04_pids_sorted_exact, C04_pids_unique; byte level: C04_listing_exact); pid_exists(n) is a bool, True exactly for listed PIDs, for every int n and every well-formed table with threads, foreign processes and broken status files (C04_pidExists_iff). For EVERY history, overlapping generators and both prologue orders included: each generator yields strictly ascending PIDs without duplicates, all from the listing it took, and next() can only yield/stop/raise ValueError (invalid attrs)/IndexError (empty table) (C04_iter_ascending, C04_overlap_safety, C04_yield_was_listed); each next() visits the remaining listed PIDs in order and skips a PID only if it vanished (C04_iter_each_listed_once at full strength for the repaired prologue order, C04_iter_each_listed_once_partial for the current code when no PID is flagged at the start of the iteration); info keys are exactly the requested names (C04_info_keys). For every SEQUENTIAL history the whole output trace of the model — PIDs, object identities, info keys — equals that of a shared-cache specification machine (C04_refines_sequential, by an abstraction function), whose cache keeps an entry iff its PID is still listed and not flagged, yields the cached object else a fresh one, and is emptied by cache_clear (C04_start_cache, C04_spec_visit, C04_isRunning_flags, C04_cache_clear). The platform functions are covered branch by branch: _psposix.pid_exists (PID 0, ESRCH, EPERM, ok, OverflowError: C04_posix_pidExists_branches), _pslinux.pid_exists called on its own with ANY table changes between the kill probe and the status read (C04_linux_pidExists_linearizable: the answer is right for the table at the probe or at the read; C04_linux_pidExists_iff without changes; C04_platform_eq ties them to the front-end model); bool arguments are ints (C04_pidExists_bool), floats are pinned as outside the statement (C04_pidExists_float: TypeError for positive floats). as_dict's ad_value substitution: keys exactly the requested names, ad_value exactly where the getter raises AccessDenied/ZombieProcess (C04_asdict_ad_value). Two threads in the prologue's drain loop: C04_drain_race_counterexample (KeyError with the unguarded pop of the code as found) and C04_drain_guarded_safe (no KeyError, no flag lost, every schedule, for the guarded pop); the code now has the guarded pop (fix 4d302c5), pinned by the obligation cfg_pop_guarded. Proved counterexamples (replayed on the real code): L4 OverflowError for the pre-fix pid_exists, L19 flagged PID skipped, overlapping generators, cache_clear while suspended, ppid reuse check (these last four are the known findings C04-flagged-pid-skipped, C04-overlap-identity, C04-clear-while-suspended, C04-reuse-check-skips-pid), and the _pids_reused.pop() race of two threads for the unguarded pop (fixed in /repo by 4d302c5). Tied to the code by translator facts (range guard, prologue order, valid/access-free/reuse-checking attr names) feeding cfg_good and the model the driver runs, and by a differential run of the real functions over a fake procfs incl. exhaustive short histories, the complete pid_exists table (front-end, both platform functions, windows between probe and read, bool/float arguments), attrs=[] (all names) on a complete fake /proc/<pid> with EACCES injection, and a deterministic bounded-pre-emption exploration of two threads using process_iter()/cache_clear()/is_running() at once (oracle from the statement; item-boundary schedules are also run through the Lean model, drain-loop steps through the Lean drain model).",
-    "level_note": "Partial: two threads: theorems cover the generator-level interleavings (Op.next of several generators) and the drain loop; finer interleavings are explored (<= 2 pre-emptions at line/shared-bytecode granularity), not proved. Identity is proved for sequential histories only (overlaps, cache_clear while suspended, ppid+recycled PID, flagged PID at iteration start are the four known findings, with proved counterexamples; the _pids_reused.pop() race found in the same round is fixed by 4d302c5); completeness is stated per next(). Trusted: Lean kernel + {propext, Classical.choice, Quot.sound}; the translator; the correspondence harness; atomicity (table changes between psutil's OS accesses and right after the listing); CPython generator finalisation and set iteration order; as_dict modelled by attribute kind.",
-    "technique": "Lean 4 generator state machine + refinement to a shared-cache specification by an abstraction function, invariants by induction over histories, translator-fed proof obligation, differential correspondence over a fake procfs with exhaustive short histories, bounded-pre-emption schedule exploration of real threads (sys.settrace baton scheduler) tied to the Lean model at item granularity",
+    "level_text": "Machine-checked Lean 4 proofs over a model of pids()/pid_exists()/process_iter()/cache_clear()/is_running()'s cache side effect. For every table: pids() is the strictly ascending list of exactly the listed PIDs (C04_pids_sorted_exact, C04_pids_unique; byte level: C04_listing_exact); pid_exists(n) is a bool, True exactly for listed PIDs, for every int n and every well-formed table with threads, foreign processes and broken status files (C04_pidExists_iff). For EVERY history, overlapping generators and both prologue orders included: each generator yields strictly ascending PIDs without duplicates, all from the listing it took, and next() can only yield/stop/raise ValueError (invalid attrs)/IndexError (empty table) (C04_iter_ascending, C04_overlap_safety, C04_yield_was_listed); each next() visits the remaining listed PIDs in order and skips a PID only if it vanished (C04_iter_each_listed_once at full strength for the repaired prologue order, C04_iter_each_listed_once_partial for the current code when no PID is flagged at the start of the iteration); info keys are exactly the requested names (C04_info_keys). One WHOLE iteration as one sentence, for any continuation of the history (other generators advancing, table changes inside and between calls, cache_clear, is_running): the PIDs a generator yields are a subsequence of the ascending listing it took and every PID of that listing is yielded, or was absent from the table at one of its next() calls, or is still to be visited; once the generator is exhausted, yielded or vanished (C04_iteration_complete at full strength for the repaired prologue order, C04_iteration_complete_partial for the code as it is when no PID is flagged at the start, C04_iteration_drained). For every SEQUENTIAL history the whole output trace of the model — PIDs, object identities, info keys — equals that of a shared-cache specification machine (C04_refines_sequential, by an abstraction function), whose cache keeps an entry iff its PID is still listed and not flagged, yields the cached object else a fresh one, and is emptied by cache_clear (C04_start_cache, C04_spec_visit, C04_isRunning_flags, C04_cache_clear). The platform functions are covered branch by branch: _psposix.pid_exists (PID 0, ESRCH, EPERM, ok, OverflowError: C04_posix_pidExists_branches), _pslinux.pid_exists called on its own with ANY table changes between the kill probe and the status read (C04_linux_pidExists_linearizable: the answer is right for the table at the probe or at the read; C04_linux_pidExists_iff without changes; C04_platform_eq ties them to the front-end model); bool arguments are ints (C04_pidExists_bool), floats are pinned as outside the statement (C04_pidExists_float: TypeError for positive floats). as_dict's ad_value substitution: keys exactly the requested names, ad_value exactly where the getter raises AccessDenied/ZombieProcess (C04_asdict_ad_value). Two threads in the prologue's drain loop: C04_drain_race_counterexample (KeyError with the unguarded pop of the code as found) and C04_drain_guarded_safe (no KeyError, no flag lost, every schedule, for the guarded pop); the code now has the guarded pop (fix 4d302c5), pinned by the obligation cfg_pop_guarded. One thread at STATEMENT granularity against an arbitrary environment (Model/C04Fine.lean: the thread as a function of what it reads — _pmap at the copy, the table at the listing, the PIDs _pids_reused.pop() hands it, the answer at each Process(pid) / as_dict — so for every schedule of any number of threads and table changes at any point, also between add(pid) and as_dict): its prologue computes what the atomic prologue computes on the hybrid snapshot (C04_fine_prologue_atomic); yielded PIDs strictly ascending and from its listing, each yielded object is the one _pmap held for that PID at the copy (and not handed to it as recycled) or its own new one, only IndexError/KeyError(unguarded pop)/ValueError can escape (C04_fine_safety, C04_fine_no_keyerror for the code as it is); what it stores into _pmap maps PIDs of its listing to the copied or its own object for that very PID (C04_fine_publish: the guarantee every reader relies on); run to the end it yields every listed PID unless the world answered NoSuchProcess there (C04_fine_complete, for the repaired order or when it was handed no flagged PID). Proved counterexamples (replayed on the real code): L4 OverflowError for the pre-fix pid_exists, L19 flagged PID skipped, overlapping generators, cache_clear while suspended, ppid reuse check (these last four are the known findings C04-flagged-pid-skipped, C04-overlap-identity, C04-clear-while-suspended, C04-reuse-check-skips-pid), and the _pids_reused.pop() race of two threads for the unguarded pop (fixed in /repo by 4d302c5). Tied to the code by translator facts (range guard, prologue order, valid/access-free/reuse-checking attr names) feeding cfg_good and the model the driver runs, and by a differential run of the real functions over a fake procfs incl. exhaustive short histories, the complete pid_exists table (front-end, both platform functions, windows between probe and read, bool/float arguments), attrs=[] (all names) on a complete fake /proc/<pid> with EACCES injection, and a deterministic bounded-pre-emption exploration of two threads using process_iter()/cache_clear()/is_running() at once (oracle from the statement; item-boundary schedules are also run through the Lean model, drain-loop steps through the Lean drain model, and EVERY generator run of every explored schedule — line, shared-bytecode and every-bytecode granularity — through the statement-granularity thread model fed with the values the real thread read: to-do list, yields and the published map must be equal); the whole-iteration sentence is also judged on the implementation's own outputs of every history; process_iter is called in every spelling of its signature (no argument, attrs / ad_value positional, by keyword, defaults).",
+    "level_note": "Partial: two threads: theorems cover the generator-level interleavings (Op.next of several generators), the drain loop, and — thread-locally, for every schedule — one thread at statement granularity against an arbitrary environment (safety, identity of the yielded objects w.r.t. the copy, the published map, completeness); the GLOBAL identity statement under two threads is not proved (it is false: known finding C04-overlap-identity) and the composition of several fine-grained threads into one trace is explored (<= 2 pre-emptions at line/shared-bytecode granularity), not proved. Identity is proved for sequential histories only (overlaps, cache_clear while suspended, ppid+recycled PID, flagged PID at iteration start are the four known findings, with proved counterexamples; the _pids_reused.pop() race found in the same round is fixed by 4d302c5); completeness is stated per next(). Trusted: Lean kernel + {propext, Classical.choice, Quot.sound}; the translator; the correspondence harness; atomicity (table changes between psutil's OS accesses and right after the listing); CPython generator finalisation and set iteration order; as_dict modelled by attribute kind.",
+    "technique": "Lean 4 generator state machine + refinement to a shared-cache specification by an abstraction function, invariants by induction over histories, a statement-granularity thread model quantified over everything the thread reads (rely/guarantee), translator-fed proof obligation, differential correspondence over a fake procfs with exhaustive short histories, bounded-pre-emption schedule exploration of real threads (sys.settrace baton scheduler) tied to the Lean model at item granularity",
     "design_ref": "DESIGN.md §5 C04",
 }
 ASSUMPTIONS = [
@@ -514,7 +514,7 @@ class Impl:
                 return {"kind": "notbool", "v": repr(r)}
             return {"kind": "bool", "v": r}
         if o == "iter":
-            g = ps.process_iter() if op["attrs"] is None else ps.process_iter(attrs=list(op["attrs"]))
+            g = call_process_iter(ps, op["attrs"], op.get("form"))
             self.gens.append(g)
             return {"kind": "gen", "g": len(self.gens) - 1}
         if o == "next":
@@ -560,6 +560,38 @@ class Impl:
         raise ValueError(op)
 
 
+AD_SENTINEL = "<ad>"
+FORMS_NONE = ["none", "none", "kw_none", "pos_none", "ad_only", "pos_none_ad"]
+FORMS_NAMES = ["kw", "kw", "pos", "kw_ad", "pos_ad", "kw_swapped"]
+
+
+def call_process_iter(ps, attrs, form):
+    """every way of spelling the call: no argument at all, attrs / ad_value positional or by keyword (the documented
+    defaults attrs=None, ad_value=None); one model op `iter attrs` for all of them"""
+    a = None if attrs is None else list(attrs)
+    if form is None:
+        form = "none" if a is None else "kw"
+    if form == "none" and a is None:
+        return ps.process_iter()
+    if form == "kw_none" and a is None:
+        return ps.process_iter(attrs=None)
+    if form == "pos_none" and a is None:
+        return ps.process_iter(None)
+    if form == "ad_only" and a is None:
+        return ps.process_iter(ad_value=AD_SENTINEL)
+    if form == "pos_none_ad" and a is None:
+        return ps.process_iter(None, AD_SENTINEL)
+    if form == "pos":
+        return ps.process_iter(a)
+    if form == "kw_ad":
+        return ps.process_iter(attrs=a, ad_value=AD_SENTINEL)
+    if form == "pos_ad":
+        return ps.process_iter(a, AD_SENTINEL)
+    if form == "kw_swapped":
+        return ps.process_iter(ad_value=AD_SENTINEL, attrs=a)
+    return ps.process_iter(attrs=a)
+
+
 def op_attrs(impl, g):
     return impl.gen_attrs[g] if hasattr(impl, "gen_attrs") and g < len(impl.gen_attrs) else None
 
@@ -577,8 +609,8 @@ def py_arg(op):
 
 
 def model_line(op):
-    if op["op"] == "iter" and op["attrs"] is not None:
-        return {"op": "iter", "attrs": set_order(op["attrs"])}
+    if op["op"] == "iter":
+        return {"op": "iter", "attrs": None if op["attrs"] is None else set_order(op["attrs"])}
     if op["op"] == "pid_exists_arg" and op["t"] == "float":
         x = float(op["x"])
         return {"op": "pid_exists_arg", "t": "float_neg" if x < 0 else "float_zero" if x == 0 else "float_other"}
@@ -733,6 +765,72 @@ def judge(rows, reuse_attrs, known_ids):
             return
 
 
+def whole_iteration_oracle(rows, reuse_attrs, valid):
+    """The trace-level sentence of the statement (Lean: C04_iteration_complete / C04_iteration_drained), judged on the
+    implementation's own outputs and a shadow process table — no model involved: the PIDs one generator yields are a
+    subsequence of the ascending listing of the table at its first next(), and once it has stopped every PID of that
+    listing was either yielded or absent from the table at one of its next() calls. Applies to ANY history (overlapping
+    generators, cache_clear, is_running); not judged: attrs with an invalid / reuse-checking name (finding
+    C04-reuse-check-skips-pid), an iteration that starts while a PID is flagged (finding C04-flagged-pid-skipped; the
+    driver's `flagged_start`), closed generators, an exception out of next().
+    → list of (step, note)"""
+    k = SimKernel()
+    gens = []
+    flags = getattr(rows, "flags", ())
+    for i, (o, io, mo, so) in enumerate(rows):
+        op = o["op"]
+        if op == "kev":
+            k.apply(o["ev"])
+        elif op == "linux_pid_exists":
+            for ev in o["mid"]:
+                k.apply(ev)
+        elif op == "iter":
+            gens.append({"attrs": o["attrs"], "l": None, "ys": [], "van": set(), "stop": None, "skip": False})
+        elif op == "close":
+            if o["g"] < len(gens) and gens[o["g"]]["stop"] is None:
+                gens[o["g"]]["skip"] = True
+        elif op == "next":
+            if o["g"] >= len(gens):
+                for ev in o["mid"]:
+                    k.apply(ev)
+                continue
+            G = gens[o["g"]]
+            if G["l"] is None:
+                G["l"] = sorted(p["pid"] for p in k.procs)
+                if i < len(flags) and flags[i]:
+                    G["skip"] = True
+            for ev in o["mid"]:
+                k.apply(ev)
+            alive = {p["pid"] for p in k.procs} | {t["tid"] for t in k.thrs}
+            G["van"] |= set(G["l"]) - alive
+            kind = io.get("kind")
+            if kind == "yield":
+                G["ys"].append(io["pid"])
+            elif kind == "stop":
+                if G["stop"] is None:
+                    G["stop"] = i
+            else:
+                G["skip"] = True
+            G["last"] = i
+    bad = []
+    for g, G in enumerate(gens):
+        a = G["attrs"]
+        if G["l"] is None or G["skip"]:
+            continue
+        if a is not None and (a == [] or set(a) & set(reuse_attrs) or not set(a) <= set(valid)):
+            continue
+        it = iter(G["l"])
+        if not all(y in it for y in G["ys"]):
+            bad.append((G["last"], "generator %d yielded %r: not a subsequence of the ascending listing %r it took"
+                        % (g, G["ys"], G["l"])))
+        elif G["stop"] is not None:
+            missing = [q for q in G["l"] if q not in G["ys"] and q not in G["van"]]
+            if missing:
+                bad.append((G["stop"], "generator %d stopped after yielding %r of the listing %r: PID(s) %r were in the "
+                            "table at every one of its next() calls" % (g, G["ys"], G["l"], missing)))
+    return bad
+
+
 # ------------------------------------------------------------------------------ generators
 
 
@@ -805,7 +903,8 @@ class HGen:
             self.kev("spawn")
 
     def iter(self, attrs=None):
-        self.h.append({"op": "iter", "attrs": attrs})
+        self.h.append({"op": "iter", "attrs": attrs,
+                       "form": self.rng.choice(FORMS_NONE if attrs is None else FORMS_NAMES)})
         self.ngen += 1
         self.live.append(self.ngen - 1)
         return self.ngen - 1
@@ -915,6 +1014,30 @@ def gen_history(rng, family):
             b.is_running(at)
         b.h.append({"op": "pids"})
         b.full()
+        b.full()
+        if rng.random() < 0.5:
+            b.is_running()
+            b.full()
+    elif family == "gone_same_tick":
+        # is_running() sees the process gone (`_gone`), then the number is taken again — mostly within the same clock
+        # tick (same start time, so `_ident` compares equal): the old object stays dead (is_running() False again,
+        # reuse-checking getters refuse it) while the cache keeps handing it out until it is flagged or dropped
+        b.populate(rng.randrange(2, 5))
+        b.full()
+        steps = list(b.yield_steps)
+        victim = dict(rng.choice(b.k.procs))
+        ev = {"k": "exit", "pid": victim["pid"]}
+        b.k.apply(ev)
+        b.h.append({"op": "kev", "ev": ev})
+        for at in steps:
+            b.is_running(at)
+        start = victim["start"] if rng.random() < 0.75 else b.tick()
+        ev = {"k": "spawn", "p": mk_proc(victim["pid"], start)}
+        b.k.apply(ev)
+        b.h.append({"op": "kev", "ev": ev})
+        for at in rng.sample(steps, rng.randrange(1, len(steps) + 1)):
+            b.is_running(at)
+        b.full(b.attrs(rng.choice(["none", "plain", "ppid", "mixed"])))
         b.full()
         if rng.random() < 0.5:
             b.is_running()
@@ -1076,7 +1199,7 @@ def gen_history(rng, family):
 
 
 FAMILIES = ["static", "churn", "vanish_mid", "vanish_respawn", "reuse_flag", "clear", "attrs", "partial", "overlap",
-            "pid_exists", "mixed", "long", "pid_exists_platform", "attrs_all"]
+            "pid_exists", "mixed", "long", "pid_exists_platform", "attrs_all", "gone_same_tick"]
 
 
 def corpus():
@@ -1102,7 +1225,11 @@ def corpus():
                      {"op": "next", "g": 0, "mid": []}]
     thread = base + [{"op": "kev", "ev": {"k": "thread", "t": {"tid": 6, "tgid": 5, "start": 200}}},
                      {"op": "pid_exists", "n": 6}, {"op": "pid_exists", "n": 5}, {"op": "pids"}] + full(0)
-    return [("corpus:L19", l19), ("corpus:L4", l4), ("corpus:L5", l5), ("corpus:clear-suspended", clear),
+    # is_running() saw PID 5 gone; 5 is taken again within the same clock tick: the old object stays dead
+    gone = base + full(0) + [ev_exit(5), {"op": "is_running", "at": 5}, spawn(5, 105), {"op": "is_running", "at": 5},
+                             {"op": "is_running", "at": 4}] + full(1) + \
+        [{"op": "iter", "attrs": ["ppid"], "form": "pos"}] + [{"op": "next", "g": 2, "mid": []} for _ in range(4)] + full(3)
+    return [("corpus:gone-same-tick", gone), ("corpus:L19", l19), ("corpus:L4", l4), ("corpus:L5", l5), ("corpus:clear-suspended", clear),
             ("corpus:ppid", ppid), ("corpus:vanish", vanish), ("corpus:thread", thread)]
 
 
@@ -1254,6 +1381,8 @@ def features(h, rows):
             f.add("pid_exists_%s:%s" % (o["t"], io.get("v") if io.get("kind") == "bool" else io.get("exc")))
         elif k == "kev":
             f.add("kev:" + o["ev"]["k"])
+        elif k == "iter":
+            f.add("iter_form:" + (o.get("form") or ("none" if o["attrs"] is None else "kw")))
     # skipped PIDs / identity reuse
     objs = {}
     for (o, io, mo, so) in rows:
@@ -1314,7 +1443,15 @@ def check_batch(ctx, impl, res, hists, tags, sample_idx=()):
                 res.count("in_region:" + fid)
             else:
                 res.disagree(kind, inp, io, mo, so, note=note)
+        res.count("whole_iteration_judged", sum(1 for r in rows if r[0]["op"] == "iter"))
+        for step, note in whole_iteration_oracle(rows, ra, valid_names(impl)):
+            o, io, mo, so = rows[step]
+            res.disagree("spec", {"history": h[:step + 1], "source": tag, "oracle": "whole_iteration"}, io, mo, so, note=note)
     return nl
+
+
+def valid_names(impl):
+    return sorted(impl.ps._as_dict_attrnames)
 
 
 def listing_cases(ctx, impl, res):
@@ -1397,9 +1534,28 @@ def attrs_all_cases(ctx, impl, res):
         reset_psutil_state(ps)
         impl.linux.BOOT_TIME = 1000000.0
         got = {}
+        form = rng.choice(["kw", "kw", "pos", "swapped", "default", "default_kw"])
+        res.count("attrs_all_form:" + form)
+        oc = {(pid, nm): r for pid in pids for nm, r in outcomes[pid]}
         try:
-            for p in ps.process_iter(attrs=list(attrs), ad_value=sent):
-                got[int(p.pid)] = {"kind": "dict", "items": sorted([k, v is sent] for k, v in p.info.items())}
+            if form == "kw":
+                it = ps.process_iter(attrs=list(attrs), ad_value=sent)
+            elif form == "pos":
+                it = ps.process_iter(list(attrs), sent)
+            elif form == "swapped":
+                it = ps.process_iter(ad_value=sent, attrs=list(attrs))
+            elif form == "default":
+                it = ps.process_iter(list(attrs))             # documented default: ad_value=None
+            else:
+                it = ps.process_iter(attrs=list(attrs))
+            for p in it:
+                if form.startswith("default"):
+                    # None must stand exactly where the getter is denied (a getter may also return None by itself)
+                    items = sorted([k, (v is None) if oc.get((int(p.pid), k)) in ("ad", "zombie") else False]
+                                   for k, v in p.info.items())
+                else:
+                    items = sorted([k, v is sent] for k, v in p.info.items())
+                got[int(p.pid)] = {"kind": "dict", "items": items}
         except Exception as e:  # noqa: BLE001
             got["exc"] = type(e).__name__
         impl.patches.deny = set()
@@ -1464,7 +1620,7 @@ def correspond(ctx, res):
         CH = 1500
         for a in range(0, len(hists), CH):
             total_lines += check_batch(ctx, impl, res, hists[a:a + CH], tags[a:a + CH],
-                                       sample_idx=(0, 2, 9, 12) if a == 0 else ())
+                                       sample_idx=(1, 3, 10, 13) if a == 0 else ())
         res.exhaustive = ("all %d words of length <= %d over the macro alphabet {reuse PID 5, exit 5, full iteration, "
                           "spawn 5, full iteration with attrs=['ppid'], iteration with attrs=['name'] during which 5 exits, start+1 next, resume 2 nexts, cache_clear, "
                           "is_running on the last object yielded for PID 5} containing an iteration; the complete "
@@ -1547,6 +1703,8 @@ def _first_spec_failure(ctx, impl, hist):
     for kind, step, fid, note in judge(results[0], reuse_attr_names(ctx), known_ids(ctx)):
         if kind == "spec":
             return step, results[0][step]
+    for step, note in whole_iteration_oracle(results[0], reuse_attr_names(ctx), valid_names(impl)):
+        return step, results[0][step]
     return None
 
 
